@@ -94,6 +94,30 @@ func partBSearchRes() {
 	expect("saved-result-wrong", seen)
 	do("SEARCH RETURN (SAVE) HEADER Subject nothing-like-this-anywhere", "OK")
 	expect("empty-result-not-saved", nil)
+	// UID EXPUNGE $ with an empty saved result removes nothing, whatever is flagged \Deleted
+	do(fmt.Sprintf("UID STORE %d +FLAGS.SILENT (\\Deleted)", all[0]), "OK")
+	if r := do("UID EXPUNGE $", "OK"); len(r.untagged("EXPUNGE")) > 0 {
+		fail("uid-expunge-of-empty-saved-result-removes-messages", "UID EXPUNGE $", r, nil, nil)
+	}
+	if r := c.do("UID SEARCH ALL"); true {
+		var got []uint32
+		for _, l := range r.untagged("SEARCH") {
+			for _, w := range l.Words()[1:] {
+				if n, ok := u32(w); ok {
+					got = append(got, n)
+				}
+			}
+		}
+		for _, l := range r.untagged("ESEARCH") {
+			if e, ok := parseESearch(l, r.tag); ok {
+				got = append(got, e.all...)
+			}
+		}
+		sort.Slice(got, func(i, j int) bool { return got[i] < got[j] })
+		if joinU32(got) != joinU32(all) {
+			fail("uid-expunge-of-empty-saved-result-removes-messages", "UID SEARCH ALL", r, all, got)
+		}
+	}
 	do("UID SEARCH RETURN (SAVE) LARGER 1", "OK")
 	expect("saved-result-wrong:uid-search", all)
 	// a SAVE that is refused: RFC 5182 §2.1 ties the effect on the variable to the status word (BAD:
